@@ -5,7 +5,7 @@
    deviates from `Ideal` EXACTLY in the two characterised classes, and (EMIT) prints the case with
    both results for the binding.  One invariant evaluates the cases once and asserts every law.   *)
 EXTENDS RemapPath, Json
-CONSTANTS Sigma, L, EMIT
+CONSTANTS Sigma, L, DEEP, EMIT      \* strings of length >= DEEP: only the first case (plain path, first pair)
 VARIABLE r
 
 OLD1 == Chars("/old/dir")   NEW1 == Chars("/new")       \* unrelated directories
@@ -15,8 +15,9 @@ OLD3 == Chars("/p/q/nn")    NEW3 == Chars("/p/s")       \* siblings below a comm
 Init == r = <<>>
 Next == Len(r) < L /\ \E c \in Sigma : r' = Append(r, c)
 
-Cases == << Case("path", r, OLD1, NEW1), Case("loc", r, OLD1, NEW1), Case("locq", r, OLD1, NEW1),
-            Case("http", r, OLD1, NEW1), Case("path", r, OLD2, NEW2), Case("path", r, OLD3, NEW3) >>
+Cases == IF Len(r) >= DEEP THEN << Case("path", r, OLD1, NEW1) >>
+         ELSE << Case("path", r, OLD1, NEW1), Case("loc", r, OLD1, NEW1), Case("locq", r, OLD1, NEW1),
+                 Case("http", r, OLD1, NEW1), Case("path", r, OLD2, NEW2), Case("path", r, OLD3, NEW3) >>
 CaseDirs == << <<OLD1, NEW1>>, <<OLD1, NEW1>>, <<OLD1, NEW1>>, <<OLD1, NEW1>>, <<OLD2, NEW2>>, <<OLD3, NEW3>> >>
 
 \* ---- laws of the model (the transcription of the code, NOT the code) ----
